@@ -3,9 +3,9 @@
 package main
 
 import (
-	"bufio"
 	"fmt"
 	"io"
+	"net"
 	"strconv"
 	"strings"
 	"time"
@@ -45,6 +45,31 @@ func (r *vChunkReader) Read(p []byte) (int, error) {
 	return n, nil
 }
 
+// net.Conn double over a chunk reader
+type vChunkConn struct {
+	r      *vChunkReader
+	closed bool
+}
+
+func (c *vChunkConn) Read(p []byte) (int, error) {
+	if c.closed {
+		return 0, io.ErrClosedPipe
+	}
+	return c.r.Read(p)
+}
+func (c *vChunkConn) Write(p []byte) (int, error)        { return len(p), nil }
+func (c *vChunkConn) Close() error                       { c.closed = true; return nil }
+func (c *vChunkConn) LocalAddr() net.Addr                { return &net.TCPAddr{IP: net.IPv4(127, 0, 0, 1), Port: 5060} }
+func (c *vChunkConn) RemoteAddr() net.Addr               { return &net.TCPAddr{IP: net.IPv4(127, 0, 0, 1), Port: 40001} }
+func (c *vChunkConn) SetDeadline(t time.Time) error      { return nil }
+func (c *vChunkConn) SetReadDeadline(t time.Time) error  { return nil }
+func (c *vChunkConn) SetWriteDeadline(t time.Time) error { return nil }
+
+type vQueueHandler struct{ msgs []*Message }
+
+func (h *vQueueHandler) HandleRawMessage(msg *RawMessage) { h.msgs = append(h.msgs, msg.Message) }
+func (h *vQueueHandler) HandleMessage(msg *Message)       {}
+
 var vUDPTrans *UDPServerTransport
 
 func init() {
@@ -61,17 +86,24 @@ func init() {
 				}
 			}
 		}
-		rd := bufio.NewReader(&vChunkReader{data: data, cuts: cuts})
-		// as in the real receive loop, decoded messages are only QUEUED while the loop keeps reading from
-		// the same reader; they are serialised later (by the proxy's message loop)
-		var queued []*Message
-		for {
-			m, err := ParseMessage(rd)
-			if err != nil {
-				break
-			}
-			queued = append(queued, m)
+		// the REAL per-connection loop (TCPServerTransport.receiveMessage) over a connection double that delivers
+		// exactly the scripted segments; as in the real transport the handler only QUEUES the decoded messages
+		// while the loop keeps reading from the same connection; they are serialised later
+		conn := &vChunkConn{r: &vChunkReader{data: data, cuts: cuts}}
+		h := &vQueueHandler{}
+		t := NewTCPServerTransportWithConn(conn, true, NewSelfLearnRoute())
+		t.msgHandler = h
+		fin := make(chan bool, 1)
+		go func() {
+			defer func() { recover(); fin <- true }()
+			t.receiveMessage(conn)
+		}()
+		select {
+		case <-fin:
+		case <-time.After(10 * time.Second):
+			return "stalled"
 		}
+		queued := h.msgs
 		var out []string
 		for _, m := range queued {
 			b, _ := m.Bytes()
